@@ -267,7 +267,7 @@ def fits (w : Nat) : Nat → List Cmd → Bool
   | _, (_, false, .softline) :: _ => true
   | _, (_, flat, .hardline) :: _ => !flat
   | col, (i, m, .nest j d) :: r => fits w col ((i + j, m, d) :: r)
-  | col, (i, _, .group d) :: r => fits w col ((i, true, d) :: r)
+  | col, (i, m, .group d) :: r => fits w col ((i, m, d) :: r)   -- `fitting` of pretty 0.12 keeps the mode (the head group is flat, groups of the rest are in break mode)
   | col, (i, m, .cat a b) :: r => fits w col ((i, m, a) :: (i, m, b) :: r)
 termination_by _ cs => cmdsSize cs
 decreasing_by all_goals (simp only [cmdsSize, Doc.size]; omega)
